@@ -23,7 +23,7 @@ sys.path.insert(0, HERE)
 
 import defs as D          # noqa: E402
 import t12                # noqa: E402
-from props import PROPS, ALLOWED_AXIOMS, TRUSTED_BASE, ALL_REGIONS, fe_relevant, t3_relevant   # noqa: E402
+from props import PROPS, ALLOWED_AXIOMS, TRUSTED_BASE, ALL_REGIONS, fe_relevant, t3_relevant, t5_relevant   # noqa: E402
 
 REPO = os.environ.get('VERIF_REPO', '/repo')
 WORK = os.path.join(VERIF, '.work')
@@ -669,12 +669,14 @@ def run_check(pid, tier):
         if t5r is None or t5r.get('build_error'):
             violations.append(({'property': pid, 'broken': 'tie', 'tie': 'T5 harness', 'detail': (t5r or {}).get('build_error') or prep['errors']}, False))
         else:
-            for f in t5r['oracle_failures'][:3]:
+            of_ = [f for f in t5r['oracle_failures'] if t5_relevant(pid, f['row'])]
+            df_ = [d for d in t5r['diffs'] if t5_relevant(pid, d.get('impl') or d.get('model') if isinstance(d, dict) else str(d))]
+            for f in of_[:3]:
                 violations.append(({'property': pid, 'broken': 'property', 'what': f['what'], 'core_call': f['row'],
                                     'replay': 'cd /verif/rt/t5 && cargo run --offline   (prints the whole table)'}, True))
-            if t5r['diffs'] and not t5r['oracle_failures']:
+            if df_ and not of_:
                 violations.append(({'property': pid, 'broken': 'tie', 'tie': 'T5 core table (implementation vs model)',
-                                    'first': t5r['diffs'][0], 'count': len(t5r['diffs'])}, False))
+                                    'first': df_[0], 'count': len(df_)}, False))
 
     # evidence
     cov = {
